@@ -79,6 +79,15 @@ Theorem c08_guard_monotone : forall raws,
 Proof. exact guard_monotone_thm. Qed.
 Print Assumptions c08_guard_monotone.
 
+(* together: a generator whose counters are what its adapter's guard lets through (from any
+   non-zero raw counter sequence) issues strictly increasing ids *)
+Theorem c08_increasing_guarded : forall S h g raws,
+  premise S h = true -> Forall (fun r => r <> 0) raws ->
+  cur_leases g [] (run empty h) = somes (guard_run 0 raws) ->
+  StronglySorted Z.lt (cur_ids g [] (run empty h)).
+Proof. exact increasing_guarded_thm. Qed.
+Print Assumptions c08_increasing_guarded.
+
 Theorem c08_guard_value : forall last raw,
   fst (guard last raw) = None \/ fst (guard last raw) = Some raw.
 Proof. exact guard_value. Qed.
